@@ -406,7 +406,12 @@ Inductive cmd :=
 | CEnvGet (n : nat) (k : key)          (* o.environ[k] *)
 | CReqGet (n : nat) (k : key)          (* o.get(k) *)
 | CEnvSet (n : nat) (k : key) (v : cval)   (* o.environ[k] = v *)
-| CCopy (n m : nat).                   (* objs[m] = objs[n].copy() *)
+| CCopy (n m : nat)                    (* objs[m] = objs[n].copy() *)
+(* the two below replay accesses recorded on the stores themselves while real
+   requests are served (sched.py: StoreProxy): setattr(o._ts_props, a, v) on
+   the calling thread, and o.headers._ts.dict = v *)
+| CRawSet (c : cls) (n : nat) (a : attr) (v : cval)
+| CRawHSet (n : nat) (v : cval).
 
 Definition with_cval (v : cval) (f : val -> frag) : frag :=
   match v with
@@ -474,6 +479,8 @@ Definition cmd_frag (c : cmd) : frag :=
         | RVal _ => k RBad
         | _ => k r end))
   | CCopy n m => copy_req n m
+  | CRawSet c n a v => with_cval v (fun x k => Do (OSet (c, n) a x) k)
+  | CRawHSet n v => with_cval v (fun x k => Do (OHSet (CResp, n) x) k)
   end.
 
 Definition cmd_prog (c : cmd) : prog := cmd_frag c (fun r => Do (OOut r) (fun _ => Done)).
@@ -559,6 +566,10 @@ Definition dec_tcmd (l : list Z) : option ((tid * cmd) * list Z) :=
     | 15%Z, n :: k :: r1 =>
       match dec_cval r1 with Some (v, r2) => Some ((t, CEnvSet (zn n) (zn k) v), r2) | None => None end
     | 16%Z, n :: m :: r1 => Some ((t, CCopy (zn n) (zn m)), r1)
+    | 17%Z, c :: n :: a :: r1 =>
+      match dec_cval r1 with Some (v, r2) => Some ((t, CRawSet (dec_cls c) (zn n) (zn a) v), r2) | None => None end
+    | 18%Z, n :: r1 =>
+      match dec_cval r1 with Some (v, r2) => Some ((t, CRawHSet (zn n) v), r2) | None => None end
     | _, _ => None
     end
   | _ => None
